@@ -292,7 +292,8 @@ func verifNewEnv(o verifStateOpts) (*verifEnv, error) {
 	if o.Burst > 0 {
 		fmt.Fprintf(&y, "    password_attempt_global_burst_limit: %d\n", o.Burst)
 	}
-	if o.Rate > 0 {
+	if o.Rate >= 0 {
+		// written even when 0: an omitted line means the daemon's default (10/s), not "below the floor"
 		fmt.Fprintf(&y, "    password_attempt_global_rate_limit: %d\n", o.Rate)
 	}
 	if o.ClientCA {
